@@ -299,7 +299,7 @@ theorem wf_field (D : Defs) : ∀ f : FieldDecl, wfFragF f = true → RefsFaithf
     intro s hs; cases hs; exact wf_field D v hf.2 hrf
   | .struct c fields defaults, hf, hrf => by
     simp only [wfFragF, and_true_iff'] at hf
-    obtain ⟨⟨hshape, hdef⟩, hfp⟩ := hf
+    obtain ⟨⟨⟨hreq, hnd⟩, hdef⟩, hfp⟩ := hf
     have hdef' : defaults = [] := by simpa using hdef
     subst hdef'
     simp only [RefsFaithful] at hrf
@@ -313,15 +313,8 @@ theorem wf_field (D : Defs) : ∀ f : FieldDecl, wfFragF f = true → RefsFaithf
       · simp [h]
     | true =>
       simp only [if_true]
-      have hncol : collapses c (fields.map (·.1)) = false := by
-        cases hcol : collapses c (fields.map (·.1)) with
-        | false => rfl
-        | true => simp [hcol, hin] at hshape
-      simp only [hncol, Bool.false_eq_true, if_false, and_true_iff'] at hshape
-      have hs : structShape c [] (emitP true fields) = classObj c [] (emitP true fields) := by
-        unfold structShape; rw [emitP_names]; simp [hncol]
-      rw [hs, retype_classObj]
-      refine wf_classObj D c _ (by simpa using hshape.1) hshape.2 ?_
+      rw [retype_classObj]
+      refine wf_classObj D c _ (by simpa using hreq) hnd ?_
       intro n s hm
       obtain ⟨f, hmf, rfl⟩ := emitP_mem true n s fields hm
       exact wf_fields D fields hfp hrf.2 n f hmf
@@ -409,14 +402,14 @@ theorem wf_class (D : Defs) (cls : FieldDecl) (hfrag : inWfFragment cls = true)
     (hrefs : ClassRefsFaithful D cls) : wfDraft4 D (classSchema true cls) = true := by
   cases cls with
   | struct c fields defaults =>
-    simp only [inWfFragment, wfFragF, and_true_iff'] at hfrag
-    obtain ⟨hni, ⟨⟨hshape, hdef⟩, hfp⟩⟩ := hfrag
-    have hdef' : defaults = [] := by simpa using hdef
-    subst hdef'
+    simp only [inWfFragment, and_true_iff'] at hfrag
+    obtain ⟨hni, hrest⟩ := hfrag
     simp only [ClassRefsFaithful] at hrefs
     simp only [classSchema]
     cases hcol : collapses c (fields.map (·.1)) with
     | true =>
+      simp only [hcol, if_true, and_true_iff'] at hrest
+      obtain ⟨hdef, hfp⟩ := hrest
       unfold structShape
       rw [emitP_names]
       simp only [hcol, if_true]
@@ -425,13 +418,17 @@ theorem wf_class (D : Defs) (cls : FieldDecl) (hfrag : inWfFragment cls = true)
       | cons p ps =>
         obtain ⟨n, f⟩ := p
         simp only [emitP]
-        exact wf_fields D fields hfp hrefs n f (by rw [hfs]; simp)
+        exact wf_fields D fields (by rw [hfs] at hfp; rw [hfs]; exact hfp) (by rw [hfs] at hrefs; rw [hfs]; exact hrefs)
+          n f (by rw [hfs]; simp)
     | false =>
-      simp only [hcol, Bool.false_eq_true, if_false, and_true_iff'] at hshape
+      simp only [hcol, Bool.false_eq_true, if_false, wfFragF, and_true_iff'] at hrest
+      obtain ⟨⟨⟨hreq, hnd⟩, hdef⟩, hfp⟩ := hrest
+      have hdef' : defaults = [] := by simpa using hdef
+      subst hdef'
       have hs : structShape c [] (emitP true fields) = classObj c [] (emitP true fields) := by
         unfold structShape; rw [emitP_names]; simp [hcol]
       rw [hs]
-      refine wf_classObj D c _ (by simpa using hshape.1) hshape.2 ?_
+      refine wf_classObj D c _ (by simpa using hreq) hnd ?_
       intro n s hm
       obtain ⟨f, hmf, rfl⟩ := emitP_mem true n s fields hm
       exact wf_fields D fields hfp hrefs n f hmf
